@@ -31,7 +31,9 @@ from sa import facts
 from sa import pat
 from sa import pycfg
 from sa import rules_dup
+from sa import rules_fold
 from sa import rules_order
+from sa import rules_stale
 from sa import rules_trav
 from sa import setalg
 from sa import tpl
@@ -208,6 +210,8 @@ def check(model, rep, tier):
   rep.rule('HOIST-LAZY', 'statement-level hoisting respects laziness', floor=1)
   rep.rule('NEW-BINDING', 'templates assign only to fresh symbols or to what the '
            'user statement itself binds', floor=15)
+  rep.rule('ORIG-DEFS', 'user reads are marked by the presence of ORIG_DEFINITIONS '
+           'and every marked read goes through ag__.ld', floor=3)
   rep.rule('LD-TRAV', 'the variable-access pass reaches every read of a variable '
            '(each becomes ag__.ld(x), which raises UnboundLocalError for '
            'Undefined)', floor=2)
@@ -607,6 +611,58 @@ def check(model, rep, tier):
             witness='while l.pop(): n += 1  (converted: infinite loop); '
             'c and l.pop()')
 
+  # ---------------------------------------------------------------- ORIG-DEFS
+  # "read that existed in the user's code" is encoded as the presence of the
+  # ORIG_DEFINITIONS annotation (its value may well be empty: no definition
+  # reaches a read after `del x`)
+  ia = model.func(API, 'PyToPy.initial_analysis')
+  dups = [c for c in core.walk_no_nested(ia.node) if isinstance(c, ast.Call) and
+          core.dotted(c.func) == 'anno.dup']
+  ok = len(dups) == 1 and len(dups[0].args) >= 2 and isinstance(dups[0].args[1], ast.Dict) \
+      and any(core.norm(k) == 'anno.Static.DEFINITIONS' and
+              core.norm(v) == 'anno.Static.ORIG_DEFINITIONS'
+              for k, v in zip(dups[0].args[1].keys, dups[0].args[1].values))
+  if ok:
+    # after the reaching-definitions pass that produces DEFINITIONS
+    g_ia = pycfg.CFG(ia.node)
+    rdn = [i for i in range(len(g_ia.nodes)) if any(
+        core.dotted(c.func) == 'reaching_definitions.resolve'
+        for c in pycfg.calls_at(g_ia, i))]
+    dn = [i for i in range(len(g_ia.nodes)) if any(c is dups[0] for c in pycfg.calls_at(g_ia, i))]
+    ok = len(rdn) == 1 and len(dn) == 1 and rdn[0] in g_ia.dominators()[dn[0]]
+  rep.check(ok, 'ORIG-DEFS', '%s:definitions-duplicated' % ia.site,
+            'the initial analysis must copy DEFINITIONS to ORIG_DEFINITIONS after '
+            'reaching definitions ran: the variable pass recognises user reads by '
+            'that annotation', line=ia.node.lineno)
+  dp = model.func('malt/pyct/anno.py', 'dup')
+  sets = [c for c in core.walk_no_nested(dp.node) if isinstance(c, ast.Call) and
+          core.dotted(c.func) == 'setanno']
+  guards = []
+  for c in sets:
+    x = c
+    par = {b: a for a in ast.walk(dp.node) for b in ast.iter_child_nodes(a)}
+    while x in par:
+      y = par[x]
+      if isinstance(y, ast.If):
+        guards.append(y.test)
+      x = y
+  bad = [core.norm(t) for t in guards if not (
+      isinstance(t, ast.Call) and core.dotted(t.func) == 'hasanno')]
+  rep.check(len(sets) == 1 and not bad, 'ORIG-DEFS', '%s:copies-on-presence' % dp.site,
+            'anno.dup must copy an annotation whenever it is present, whatever '
+            'its value: an empty DEFINITIONS tuple is a real annotation (a read '
+            'no definition reaches) and must still mark the read as the user\'s',
+            {'non_presence_guards': bad}, line=dp.node.lineno,
+            witness='del x; return x  -- the read must raise UnboundLocalError, '
+            'not return the Undefined placeholder')
+  vn_ = model.func(CONV + 'variables.py', 'VariableAccessTransformer.visit_Name')
+  src_ = core.norm(vn_.node)
+  ok = pat.has(vn_.node, 'if not anno.hasanno(_N_, anno.Static.ORIG_DEFINITIONS):\n  return _N_') \
+      and pat.has(vn_.node, "templates.replace_as_expression('ag__.ld(var_)', var_=_N_)")
+  rep.check(ok, 'ORIG-DEFS', '%s:wraps-every-user-read' % vn_.site,
+            'every Load of a name that carries ORIG_DEFINITIONS becomes '
+            'ag__.ld(name)', line=vn_.node.lineno)
+
   # ---------------------------------------------------------------- LD-TRAV
   rules_trav.analysis_trav(
       model, rep, 'LD-TRAV', CONV + 'variables.py', 'VariableAccessTransformer', {
@@ -628,6 +684,19 @@ def check(model, rep, tier):
   rep.unit('new-binding store placeholders', nn)
   rep.unit('dup-eval placeholders', na)
   rep.unit('dup-eval handlers', nb)
+
+  # ---------------------------------------------------------------- STALE
+  rep.rule('STALE', 'no handler embeds a child it read off the node before the '
+           'visitor rewrote the node', floor=20)
+  _rels = sorted(m.rel for m in model.modules.values() if m.rel.startswith(CONV))
+  _sites = [x for x in tpl.find_sites(model) if x.fi.module.rel.startswith(CONV)]
+  rules_stale.check(model, rep, 'STALE', _rels, _sites)
+
+  # ---------------------------------------------------------------- FOLD
+  rep.rule('FOLD', 'n-ary boolean operations and comparison chains are folded '
+           'into nested operator calls over the converted operands, once each, '
+           'in source order, lazily', floor=6)
+  rules_fold.check(model, rep, 'FOLD')
 
   # ---------------------------------------------------------------- dependencies
   rep.depends('C05', None,
